@@ -44,7 +44,7 @@ use std::{
     collections::BTreeMap,
     future::Future,
     pin::Pin,
-    sync::{Arc, Mutex},
+    sync::Arc,
 };
 
 use n0_error::{AnyError, e, stack_error};
@@ -97,7 +97,9 @@ use crate::{
 pub struct Router {
     endpoint: Endpoint,
     // `Router` needs to be `Clone + Send`, and we need to `task.await` in its `shutdown()` impl.
-    task: Arc<Mutex<Option<AbortOnDropHandle<()>>>>,
+    // The mutex is an async one: `shutdown()` holds it across `task.await`, so that concurrent
+    // callers (on any clone) all wait for the run task to finish.
+    task: Arc<tokio::sync::Mutex<Option<AbortOnDropHandle<()>>>>,
     cancel_token: CancellationToken,
 }
 
@@ -427,19 +429,20 @@ impl Router {
     /// If some [`ProtocolHandler`] panicked in the accept loop, this will propagate
     /// that panic into the result here.
     pub async fn shutdown(&self) -> Result<(), n0_future::task::JoinError> {
-        if self.is_shutdown() {
-            return Ok(());
-        }
-
         // Trigger shutdown of the main run task by activating the cancel token.
         self.cancel_token.cancel();
 
         // Wait for the main task to terminate.
-
-        // MutexGuard is not held across await point
-        let task = self.task.lock().expect("poisoned").take();
-        if let Some(task) = task {
-            task.await?;
+        //
+        // The cancel token only says that *someone started* shutting down, so it must not be
+        // used to return early.  Every caller takes the (async) lock instead: the first one
+        // holds it while waiting for the run task, later or concurrent ones get it - and find
+        // the slot empty - only once that wait is over.
+        let mut task = self.task.lock().await;
+        if let Some(handle) = task.as_mut() {
+            let res = handle.await;
+            *task = None;
+            res?;
         }
 
         Ok(())
@@ -616,7 +619,7 @@ impl RouterBuilder {
 
         Router {
             endpoint: self.endpoint,
-            task: Arc::new(Mutex::new(Some(task))),
+            task: Arc::new(tokio::sync::Mutex::new(Some(task))),
             cancel_token: cancel,
         }
     }
